@@ -7,6 +7,7 @@ import Mfi.Model.Admin
 import Mfi.Lemmas.FxL
 import Mfi.Lemmas.ResL
 import Mfi.Props.C18
+import Mfi.Props.C04
 
 namespace Mfi.Props.C13
 open Mfi Mfi.Fx Mfi.Admin Mfi.Gen
@@ -143,6 +144,31 @@ theorem emode_config_coherent (es : List Entry) (lI lM mI mM : Int) (h : validat
   intro e he hne
   have := validateEntry_ok (validateEntries_all es _ _ _ _ h1 e he) hne
   exact ⟨this.1, this.2.1, this.2.2.1, this.2.2.2.1⟩
+
+/-! ### the consequence: a liquidation buffer
+
+`C04.init_implies_maint` proves, on the risk-engine model, that an account passing the initial-margin check at
+given prices has non-negative maintenance health — from exactly the weight ordering established above. The two
+lemmas below discharge its configuration hypotheses from what `validate`/`configure`/e-mode validation accept. -/
+
+theorem risk_view_coherent (c : Cfg) (b : Risk.BankR) (hc : Coherent c)
+    (hw : b.aInit = c.aInit ∧ b.aMaint = c.aMaint ∧ b.lInit = c.lInit ∧ b.lMaint = c.lMaint)
+    (hsv : 0 ≤ b.asv ∧ 0 ≤ b.lsv) : C04.Coherent b := by
+  have := ONE_pos
+  obtain ⟨h1, h2, h3, h4⟩ := hw
+  refine ⟨?_, ?_, ?_, ?_, hsv.1, hsv.2⟩
+  · rw [h1]; exact hc.aInit_range.1
+  · rw [h1, h2]; exact hc.aMaint_range.1
+  · rw [h4]; have := hc.liab.1; omega
+  · rw [h3, h4]; exact hc.liab.2
+
+theorem risk_view_entries (es : List Entry) (lI lM mI mM : Int) (h : validateEmode es lI lM mI mM = .ok ()) :
+    C04.EntriesOk (es.map fun e => { tag := e.tag.toNat, flags := e.flags.toNat, wInit := e.init, wMaint := e.maint }) := by
+  intro e he hne
+  obtain ⟨x, hx, rfl⟩ := List.mem_map.1 he
+  have hne' : x.tag ≠ 0 := by intro h0; apply hne; simp [h0]
+  have := emode_config_coherent es lI lM mI mM h x hx hne'
+  exact ⟨this.1, this.2.1⟩
 
 /-! ### non-vacuity -/
 def sampleCfg : Cfg :=
